@@ -21,6 +21,7 @@ structure St where
   core : Core
   last : Std.HashMap String (List String) := {}       -- name → last probe observation of the implementation
   pending : Option String := none                      -- name of a pure-mismatch write just executed
+  held : List (String × String) := []                  -- handle → name it was opened under (implementation said ok)
 
 def init (toks : List String) : Option St := do
   let cfg ← cfg? toks
@@ -99,7 +100,21 @@ def step (s : St) (kind : String) (args impl : List String) : Option (St × Step
           pf := pf ++ [s!"side=impl key=mismatch-write-accepted {sp args} returned ok although no stream hashes to {n}"]
         pending := some n
     | none => pure ()
-  return ({ core, last, pending }, { obs, branch, propfails := pf })
+  -- readers held open: what they finally deliver must hash to the name they were opened under
+  let mut held := s.held
+  match args with
+  | ["open", n, h] => if impl = ["ok"] then held := (h, n) :: held.filter (·.1 ≠ h)
+  | ["readh", h] =>
+    match s.held.find? (·.1 = h), impl with
+    | some (_, n), [b] =>
+      if !muted then
+        match s.core.t.sha.get? b with
+        | some d => if d ≠ n then pf := pf ++ [s!"side=impl key=served-wrong-bytes the reader {h} opened under {n} and held open delivered {b} whose sha256 is {d}"]
+        | none => pure ()
+    | _, _ => pure ()
+    held := held.filter (·.1 ≠ h)
+  | _ => pure ()
+  return ({ core, last, pending, held }, { obs, branch, propfails := pf })
 
 def machine : Machine := { σ := St, name := "castore", init := init, step := step }
 
